@@ -77,6 +77,20 @@ def cleanup_all():
         _live.pop().cleanup()
 
 
+import atexit  # noqa: E402
+
+_owner_pid = os.getpid()
+
+
+def _atexit():
+    # scratch packages are removed by the process that generated them (not by forked workers)
+    if os.getpid() == _owner_pid:
+        cleanup_all()
+
+
+atexit.register(_atexit)
+
+
 # ---- schematic wire domains -------------------------------------------------------------------------------------------
 
 from .libmodels import Domains  # noqa: E402
